@@ -78,6 +78,25 @@ int sqfs_super_read(sqfs_super_t *super, sqfs_file_t *file)
 	if (temp.id_count == 0)
 		return SQFS_ERROR_CORRUPTED;
 
+	if (temp.id_table_start >= temp.bytes_used ||
+	    temp.inode_table_start >= temp.bytes_used ||
+	    temp.directory_table_start >= temp.bytes_used) {
+		return SQFS_ERROR_CORRUPTED;
+	}
+
+	if (temp.fragment_entry_count > 0) {
+		if (temp.fragment_table_start >= temp.bytes_used)
+			return SQFS_ERROR_CORRUPTED;
+	} else if (temp.fragment_table_start != 0xFFFFFFFFFFFFFFFFUL &&
+		   temp.fragment_table_start >= temp.bytes_used) {
+		return SQFS_ERROR_CORRUPTED;
+	}
+
+	if (temp.xattr_id_table_start != 0xFFFFFFFFFFFFFFFFUL &&
+	    temp.xattr_id_table_start >= temp.bytes_used) {
+		return SQFS_ERROR_CORRUPTED;
+	}
+
 	if (temp.flags & SQFS_FLAG_EXPORTABLE) {
 		if (temp.export_table_start >= temp.bytes_used)
 			return SQFS_ERROR_CORRUPTED;
